@@ -2,7 +2,7 @@ SPECIFICATION Spec
 CONSTANTS
   Mode = "match"
   BsIds = {1, 2, 3}
-  MaxMeas = 3
+  MaxMeas = 4
   Deltas <- DeltasQuick
   Diffs = {0, 1}
   MinBs = {0, 1, 2}
